@@ -553,9 +553,6 @@ def emit(info: Info) -> tuple[str, dict]:
   kPhysics := {k('physics')}
   kForward := {k('forward_operator')}
   kBackward := {k('backward_operator')}
-  modDatasetsConfig := {cps('direct.data.datasets_config')}
-  modSubsample := {cps('direct.common.subsample')}
-  modTransforms := {cps('direct.data.transforms')}
 """)
     out.append(f"def transformSchema : Ty := {ty_or_any('direct.data.datasets_config', 'TransformsConfig')}")
     out.append(f"/-- the {len(cfg_entries)} shipped configuration files: (path, tree) -/")
@@ -584,10 +581,290 @@ def _extra():
 EXTRA["C20"] = _extra
 
 
-# ---- one AST kernel: which keys `build_transforms_from_environment` removes before flattening -------------------------
-def _removed_keys(k: Kernel, fn: ast.FunctionDef) -> str:
+# =================================================================================================
+# AST kernels: string arithmetic of the name look-ups, statement order of the merge, dict_flatten, removed keys
+class StrTr:
+    """Python string expressions -> Lean terms over `Str = List Nat` (code points) / `List Str`.
+
+    Understood: names (bound parameters / earlier locals), string constants, f-strings without format specs, `+`,
+    `.lower()`, `.split(".")`, `".".join(xs)`, `xs[0]`, `xs[-1]`, `xs[:-1]`, `[e.lower() for e in xs]`, and
+    `A if A else B` where `A` is the *optional* bound expression (None / "" are falsy)."""
+
+    def __init__(self, binds: dict[str, str], optional: dict[str, str] | None = None):
+        self.binds = dict(binds)          # source text -> Lean term of type Str
+        self.optional = dict(optional or {})   # source text -> Lean term of type Option Str
+        self.locals: dict[str, tuple[str, str]] = {}   # python local -> (lean term, "str" | "list")
+
+    def expr(self, node: ast.AST) -> tuple[str, str]:
+        text = ast.unparse(node)
+        if text in self.binds:
+            return self.binds[text], "str"
+        if isinstance(node, ast.Name):
+            if node.id in self.locals:
+                return self.locals[node.id]
+            raise Untranslatable(f"unbound name `{node.id}`")
+        if isinstance(node, ast.Constant) and isinstance(node.value, str):
+            return f"({cps(node.value)} : Config.Str)", "str"
+        if isinstance(node, ast.JoinedStr):
+            parts = []
+            for v in node.values:
+                if isinstance(v, ast.Constant):
+                    parts.append(f"({cps(v.value)} : Config.Str)")
+                elif isinstance(v, ast.FormattedValue) and v.conversion == -1 and v.format_spec is None:
+                    t, ty = self.expr(v.value)
+                    if ty != "str":
+                        raise Untranslatable(f"non-string in f-string: `{ast.unparse(v.value)}`")
+                    parts.append(t)
+                else:
+                    raise Untranslatable("f-string with conversion / format spec")
+            return "(" + " ++ ".join(parts) + ")" if parts else "([] : Config.Str)", "str"
+        if isinstance(node, ast.BinOp) and isinstance(node.op, ast.Add):
+            a, ta = self.expr(node.left)
+            b, tb = self.expr(node.right)
+            if ta != "str" or tb != "str":
+                raise Untranslatable("`+` on non-strings")
+            return f"({a} ++ {b})", "str"
+        if isinstance(node, ast.Call) and isinstance(node.func, ast.Attribute):
+            meth = node.func.attr
+            if meth == "lower" and not node.args:
+                a, ta = self.expr(node.func.value)
+                if ta != "str":
+                    raise Untranslatable("`.lower()` on a non-string")
+                return f"(Config.lower {a})", "str"
+            if meth == "split" and len(node.args) == 1 and isinstance(node.args[0], ast.Constant) and node.args[0].value == ".":
+                a, ta = self.expr(node.func.value)
+                if ta != "str":
+                    raise Untranslatable("`.split` on a non-string")
+                return f"(Config.splitDot {a})", "list"
+            if meth == "join" and isinstance(node.func.value, ast.Constant) and node.func.value.value == "." and len(node.args) == 1:
+                a, ta = self.expr(node.args[0])
+                if ta != "list":
+                    raise Untranslatable("`join` of a non-list")
+                return f"(Config.joinDot {a})", "str"
+            raise Untranslatable(f"unsupported call `{text}`")
+        if isinstance(node, ast.Subscript):
+            a, ta = self.expr(node.value)
+            if ta != "list":
+                raise Untranslatable(f"subscript of a non-list `{text}`")
+            sl = ast.unparse(node.slice).replace(" ", "")
+            if sl == "0":
+                return f"(({a}).headD [])", "str"
+            if sl == "-1":
+                return f"(({a}).getLast?.getD [])", "str"
+            if sl == ":-1":
+                return f"(({a}).dropLast)", "list"
+            raise Untranslatable(f"unsupported subscript `{text}`")
+        if isinstance(node, ast.ListComp) and len(node.generators) == 1 and not node.generators[0].ifs \
+                and isinstance(node.generators[0].target, ast.Name):
+            g = node.generators[0]
+            xs, tx = self.expr(g.iter)
+            if tx != "list":
+                raise Untranslatable("comprehension over a non-list")
+            saved = self.locals.get(g.target.id)
+            self.locals[g.target.id] = ("x__", "str")
+            try:
+                e, te = self.expr(node.elt)
+            finally:
+                if saved is None:
+                    self.locals.pop(g.target.id, None)
+                else:
+                    self.locals[g.target.id] = saved
+            if te != "str":
+                raise Untranslatable("comprehension element is not a string")
+            return f"(({xs}).map fun x__ => {e})", "list"
+        if isinstance(node, ast.IfExp):
+            ttext = ast.unparse(node.test)
+            if ttext in self.optional and ast.unparse(node.body) == ttext:
+                b, tb = self.expr(node.orelse)
+                if tb != "str":
+                    raise Untranslatable("else branch is not a string")
+                return f"(match {self.optional[ttext]} with | some e__ => e__ | none => {b})", "str"
+        raise Untranslatable(f"unsupported expression `{text}`")
+
+    def run(self, stmts):
+        """straight-line assignments / `+=` to names; everything else is skipped"""
+        for st in stmts:
+            try:
+                if isinstance(st, ast.Assign) and len(st.targets) == 1 and isinstance(st.targets[0], ast.Name):
+                    self.locals[st.targets[0].id] = self.expr(st.value)
+                elif isinstance(st, ast.AugAssign) and isinstance(st.op, ast.Add) and isinstance(st.target, ast.Name):
+                    cur = self.binds.get(st.target.id) or self.locals.get(st.target.id, (None,))[0]
+                    if cur is None:
+                        raise Untranslatable(f"`+=` on unbound `{st.target.id}`")
+                    r, tr_ = self.expr(st.value)
+                    self.binds.pop(st.target.id, None)
+                    self.locals[st.target.id] = (f"({cur} ++ {r})", "str")
+            except Untranslatable:
+                if isinstance(st, (ast.Assign, ast.AugAssign)):
+                    tgt = st.targets[0] if isinstance(st, ast.Assign) else st.target
+                    if isinstance(tgt, ast.Name):
+                        self.locals.pop(tgt.id, None)     # unknown from here on
+
+
+def _walk_stmts(body):
+    for st in body:
+        yield st
+        for attr in ("body", "orelse", "finalbody"):
+            yield from _walk_stmts(getattr(st, attr, []) or [])
+        for h in getattr(st, "handlers", []) or []:
+            yield from _walk_stmts(h.body)
+
+
+def _str_to_class_target(params: list[str], binds: dict[str, str], optional: dict[str, str] | None = None,
+                         callee: str = "str_to_class"):
+    """kernel = the (module, attribute) pair handed to the first `str_to_class(...)` call of the function"""
+
+    def build(k: Kernel, fn: ast.FunctionDef) -> str:
+        tr = StrTr(binds, optional)
+        call = None
+        flat = list(_walk_stmts(fn.body))
+        for i, st in enumerate(flat):
+            for node in ast.walk(st) if not isinstance(st, (ast.If, ast.For, ast.Try, ast.With, ast.While)) else []:
+                if isinstance(node, ast.Call) and ast.unparse(node.func).split(".")[-1] == callee and len(node.args) == 2:
+                    call = node
+                    break
+            if call is not None:
+                break
+            tr.run([st])
+        if call is None:
+            raise Untranslatable(f"`{callee}(module, name)` not found")
+        m, tm = tr.expr(call.args[0])
+        a, ta = tr.expr(call.args[1])
+        if tm != "str" or ta != "str":
+            raise Untranslatable("arguments are not strings")
+        lam = " ".join(params)
+        return f"def {k.name} : {k.ret_type} := fun {lam} =>\n  ({m},\n   {a})\n"
+
+    return build
+
+
+def _metrics_target(k: Kernel, fn: ast.FunctionDef) -> str:
+    """`self._build_function_class(metrics_list, "<module>", "metric")`: every listed name is looked up in <module>"""
+    for node in ast.walk(fn):
+        if isinstance(node, ast.Call) and ast.unparse(node.func).endswith("_build_function_class") and len(node.args) == 3 \
+                and isinstance(node.args[1], ast.Constant) and isinstance(node.args[1].value, str):
+            return (f"def {k.name} : {k.ret_type} := fun fn =>\n"
+                    f"  (({cps(node.args[1].value)} : Config.Str), fn)\n")
+    raise Untranslatable("`self._build_function_class(list, module, postfix)` not found")
+
+
+def _merge_steps(k: Kernel, fn: ast.FunctionDef) -> str:
+    """ordered (code, depth) table of the statements of `setup_common_environment` the model depends on.
+    codes: 1 load file, 2 structured(DefaultConfig), 3 load_models_into_environment_config, 4 cfg.model =, 5 cfg.additional_models =,
+    6/7/8 cfg.training/validation/inference = <Config class>, 9 the key loop, 10 skip-list `continue`, 11 falsy section `continue`,
+    12 datasets.append(load_dataset_config), 13 dataset = load_dataset_config, 14 cfg[key] = merge(cfg[key], file[key]),
+    15 build_operators, 16 initialize_models_from_config, 17 setup_engine"""
+    steps: list[tuple[int, int]] = []
+    skip: list[str] = []
+    sections: list[str] = []
+
+    def classify(st: ast.stmt, depth: int, loop_var: str | None):
+        src = ast.unparse(st).replace(" ", "")
+        if isinstance(st, ast.For) and "cfg_from_external_source" in ast.unparse(st.iter):
+            steps.append((9, depth))
+            lv = ast.unparse(st.target)
+            for s2 in st.body:
+                classify(s2, depth + 1, lv)
+            return
+        if isinstance(st, ast.If):
+            test = ast.unparse(st.test).replace(" ", "")
+            only_continue = len(st.body) >= 1 and isinstance(st.body[-1], ast.Continue)
+            if loop_var and test.startswith(f"{loop_var}in[") and only_continue and depth == 1:
+                steps.append((10, depth))
+                lst = st.test.comparators[0]
+                skip.extend(e.value for e in lst.elts if isinstance(e, ast.Constant))
+                return
+            if loop_var and test.startswith(f"{loop_var}in[") and depth == 1:
+                lst = st.test.comparators[0]
+                sections.extend(e.value for e in lst.elts if isinstance(e, ast.Constant))
+            if loop_var and test.startswith("notcfg_from_external_source[") and only_continue:
+                steps.append((11, depth))
+                return
+            for s2 in st.body + st.orelse:
+                classify(s2, depth + 1, loop_var)
+            return
+        if isinstance(st, (ast.With, ast.Try)):
+            for s2 in st.body:
+                classify(s2, depth, loop_var)
+            return
+        if isinstance(st, ast.For):
+            for s2 in st.body:
+                classify(s2, depth + 1, loop_var)
+            return
+        if "OmegaConf.load(" in src and src.startswith("cfg_from_external_source="):
+            steps.append((1, depth))
+        elif src.startswith("cfg=OmegaConf.structured(DefaultConfig)"):
+            steps.append((2, depth))
+        elif "load_models_into_environment_config(cfg_from_external_source)" in src:
+            steps.append((3, depth))
+        elif src == "cfg.model=models_config.model":
+            steps.append((4, depth))
+        elif src == "cfg.additional_models=models_config":
+            steps.append((5, depth))
+        elif src == "cfg.training=TrainingConfig":
+            steps.append((6, depth))
+        elif src == "cfg.validation=ValidationConfig":
+            steps.append((7, depth))
+        elif src == "cfg.inference=InferenceConfig":
+            steps.append((8, depth))
+        elif ".datasets.append(load_dataset_config(" in src:
+            steps.append((12, depth))
+        elif ".dataset=load_dataset_config(" in src:
+            steps.append((13, depth))
+        elif loop_var and src == f"cfg[{loop_var}]=OmegaConf.merge(cfg[{loop_var}],cfg_from_file_new[{loop_var}])":
+            steps.append((14, depth))
+        elif "build_operators(cfg.physics)" in src:
+            steps.append((15, depth))
+        elif "initialize_models_from_config(" in src:
+            steps.append((16, depth))
+        elif "setup_engine(" in src:
+            steps.append((17, depth))
+
+    for st in fn.body:
+        classify(st, 0, None)
+    if not any(c == 9 for c, _ in steps):
+        raise Untranslatable("key loop `for key in cfg_from_external_source` not found")
+    return (f"def {k.name} : List (Nat × Nat) := {[list(x) for x in steps]}\n".replace("[[", "[(").replace("]]", ")]")
+            .replace("], [", "), (") +
+            f"/-- keys the loop skips / the typed sections it treats specially -/\n"
+            f"def mergeSkippedKeys : List (List Nat) := [" + ", ".join(cps(x) for x in skip) + "]\n"
+            f"def mergeSectionKeys : List (List Nat) := [" + ", ".join(cps(x) for x in sections) + "]\n")
+
+
+_MERGE_FALLBACK = ("([(1, 1), (2, 0), (3, 0), (4, 0), (5, 0), (6, 0), (7, 0), (8, 0), (9, 0), (10, 1), (11, 2), (12, 4), (13, 3), "
+                   "(14, 1), (15, 0), (16, 0), (17, 0)] : List (Nat × Nat))")
+
+
+def _dict_flatten_shape(k: Kernel, fn: ast.FunctionDef) -> str:
+    """[recurses into dict values, skips the intermediate key (continue), stores leaves under their own key, value classes]"""
+    loop = None
+    for st in fn.body:
+        if isinstance(st, ast.For) and ast.unparse(st.iter).replace(" ", "") == "in_dict.items()":
+            loop = st
+    if loop is None or ast.unparse(loop.target).replace(" ", "").strip("()") != "k,v":
+        raise Untranslatable("`for k, v in in_dict.items()` not found")
+    rec = cont = leaf = 0
+    classes: list[str] = []
+    for st in loop.body:
+        if isinstance(st, ast.If) and "isinstance(v" in ast.unparse(st.test).replace(" ", ""):
+            call = st.test
+            if isinstance(call, ast.Call) and len(call.args) == 2:
+                c = call.args[1]
+                classes = [ast.unparse(e) for e in (c.elts if isinstance(c, ast.Tuple) else [c])]
+            body = [ast.unparse(x).replace(" ", "") for x in st.body]
+            rec = int(any(b.startswith("dict_flatten(in_dict=v,dict_out=dict_out)") or b.startswith("dict_flatten(v,dict_out)")
+                          for b in body))
+            cont = int(isinstance(st.body[-1], ast.Continue))
+        elif ast.unparse(st).replace(" ", "") == "dict_out[k]=v":
+            leaf = 1
+    ok_classes = int(sorted(classes) == ["DictConfig", "dict"])
+    return f"def {k.name} : List Nat := [{rec}, {cont}, {leaf}, {ok_classes}]\n"
+
+
+# ---- which keys `build_transforms_from_environment` removes before flattening -----------------------------------------
+def _removed_keys(k: Kernel, fn: ast.FunctionDef, need_masking_call: bool = True) -> str:
     src = ast.unparse(fn)
-    if "build_masking_function(**masking)" not in src.replace(" ", ""):
+    if need_masking_call and "build_masking_function(**masking)" not in src.replace(" ", ""):
         raise Untranslatable("`build_masking_function(**masking)` not found")
     keys = None
     flat = False
@@ -605,8 +882,37 @@ def _removed_keys(k: Kernel, fn: ast.FunctionDef) -> str:
     return f"def {k.name} : List (List Nat) := [" + ", ".join(cps(s) for s in keys) + "]\n"
 
 
+def _removed_keys_inference(k: Kernel, fn: ast.FunctionDef) -> str:
+    return _removed_keys(k, fn, need_masking_call=False)
+
+
+ENV = "direct/environment.py"
 register("C20", [
     Kernel("removedTransformKeys", "direct/train.py", "build_transforms_from_environment", [],
            "([[109, 97, 115, 107, 105, 110, 103]] : List (List Nat))", _removed_keys, ret_type="List (List Nat)",
            imports=CONFIG_IMPORT),
+    Kernel("removedInferenceTransformKeys", "direct/inference.py", "build_inference_transforms", [],
+           "([[109, 97, 115, 107, 105, 110, 103]] : List (List Nat))", _removed_keys_inference, ret_type="List (List Nat)"),
+    Kernel("loadModelTarget", ENV, "load_model_from_name", [], "Config.modelTarget",
+           _str_to_class_target(["model_name"], {"model_name": "model_name"}), ret_type="Config.Str → Config.Str × Config.Str"),
+    Kernel("loadModelConfigTarget", ENV, "load_model_config_from_name", [], "Config.modelConfigTarget",
+           _str_to_class_target(["model_name"], {"model_name": "model_name"}), ret_type="Config.Str → Config.Str × Config.Str"),
+    Kernel("setupEngineTarget", ENV, "setup_engine", [], "Config.engineTarget",
+           _str_to_class_target(["model_name", "engine_name"], {"cfg.model.model_name": "model_name"},
+                                {"cfg.model.engine_name": "engine_name"}),
+           ret_type="Config.Str → Option Config.Str → Config.Str × Config.Str"),
+    Kernel("loadDatasetConfigTarget", ENV, "load_dataset_config", [], "Config.datasetConfigTarget",
+           _str_to_class_target(["dataset_name"], {"dataset_name": "dataset_name"}), ret_type="Config.Str → Config.Str × Config.Str"),
+    Kernel("buildOperatorsTarget", ENV, "build_operators", [], "Config.operatorTarget",
+           _str_to_class_target(["op"], {"cfg.forward_operator": "op"}), ret_type="Config.Str → Config.Str × Config.Str"),
+    Kernel("buildMaskingFunctionTarget", "direct/common/subsample.py", "build_masking_function", [], "Config.maskFuncTarget",
+           _str_to_class_target(["name"], {"name": "name"}), ret_type="Config.Str → Config.Str × Config.Str"),
+    Kernel("buildDatasetTarget", "direct/data/datasets.py", "build_dataset", [], "Config.datasetClassTarget",
+           _str_to_class_target(["name"], {"name": "name"}), ret_type="Config.Str → Config.Str × Config.Str"),
+    Kernel("buildMetricsTarget", "direct/engine.py", "Engine.build_metrics", [], "Config.functionalTarget",
+           _metrics_target,
+           ret_type="Config.Str → Config.Str × Config.Str"),
+    Kernel("mergeSteps", ENV, "setup_common_environment", [], _MERGE_FALLBACK, _merge_steps, ret_type="List (Nat × Nat)"),
+    Kernel("dictFlattenShape", "direct/utils/__init__.py", "dict_flatten", [], "([1, 1, 1, 1] : List Nat)", _dict_flatten_shape,
+           ret_type="List Nat"),
 ])
